@@ -1213,7 +1213,7 @@ func (self *LockManager) ProcessRecoverLockData(lock *Lock) {
 		return
 	}
 	currentData := lock.data.currentData
-	if currentData == nil || (self.currentData.commandType != protocol.LOCK_DATA_COMMAND_TYPE_UNSET && currentData.commandType != self.currentData.commandType) {
+	if currentData == nil || self.currentData == nil || (self.currentData.commandType != protocol.LOCK_DATA_COMMAND_TYPE_UNSET && currentData.commandType != self.currentData.commandType) {
 		lock.data.commandDatas = nil
 		if lock.data.ProcessAckClear() {
 			lock.data = nil
